@@ -80,6 +80,7 @@ class Case:
         self.vectors = None      # list of list of bits (exec leg)
         self.typed = True
         self.wellformed = True   # placeholder-free terminals
+        self.known_key = None    # the case aims at a recorded known finding
 
     def cat(self, kind):
         if kind not in self.catmap:
@@ -100,7 +101,8 @@ class Case:
         return {"tag": self.tag,
                 "syms": [{k: (v.hex() if isinstance(v, bytes) else v) for k, v in s.items() if k != "_key"} for s in self.syms],
                 "genes": [[g[0], g[1], list(g[2])] for g in self.genes],
-                "kinds": self.kinds, "vectors": self.vectors, "typed": self.typed, "wellformed": self.wellformed}
+                "kinds": self.kinds, "vectors": self.vectors, "typed": self.typed, "wellformed": self.wellformed,
+                "known_key": self.known_key}
 
     @staticmethod
     def from_json(o):
@@ -116,6 +118,7 @@ class Case:
         c.vectors = o.get("vectors")
         c.typed = o.get("typed", True)
         c.wellformed = o.get("wellformed", True)
+        c.known_key = o.get("known_key")
         return c
 
     # ---- line protocol
@@ -407,6 +410,30 @@ class Gen:
             out.append(c)
         return out
 
+    def quote_cases(self):
+        """KNOWN FINDING string-literal:unescaped-quote -- constant<std::string>::display does not
+        escape: a string constant containing a double quote or a backslash is not a literal"""
+        out = []
+        for sv in [b'a"b', b'"', b'x\\']:
+            for with_len in (False, True):
+                c = Case("quote")
+                c.known_key = "string-literal:unescaped-quote"
+                c.typed = True
+                q = {"k": "Q", "s": sv, "cat": None}
+                if with_len:
+                    c.catmap = {"R": 0, "S": 1}
+                    q["cat"] = 1
+                    f = {"k": "K", "ident": "real_length", "cv": [1, 0], "cat": 0, "argcats": [1]}
+                    c.genes = [(c.sym_index(f), None, [1]), (c.sym_index(q), None, [])]
+                    c.kinds = ["R", "S"]
+                else:
+                    c.catmap = {"S": 0}
+                    q["cat"] = 0
+                    c.genes = [(c.sym_index(q), None, [])]
+                    c.kinds = ["S"]
+                out.append(c)
+        return out
+
     def malformed_cases(self):
         """terminals whose text contains a placeholder: render is NOT the
         simultaneous instantiation there (stated hypothesis of the theorem);
@@ -474,6 +501,10 @@ def lex(text, fmt):
         if k == "id" and toks and toks[-1][0] in ("num", "str"):
             raise ParseError("token %r glued to %r" % (v, toks[-1][1]))
         if k == "op" and v in ("++", "--"):
+            if fmt == "py":            # Python has no such operator: two signs
+                toks.append(("op", v[0]))
+                toks.append(("op", v[0]))
+                continue
             raise ParseError("operator %s (two signs glued)" % v)
         toks.append((k, v))
     return toks
